@@ -4,6 +4,9 @@ import ThriftVerif.Facts.ExpectGen
 #print axioms ThriftVerif.Properties.C05.unknown_field_ignored
 #print axioms ThriftVerif.Properties.C05.unknown_field_ignored_stream
 #print axioms ThriftVerif.Properties.C05.unknown_field_ignored_lazy
+#print axioms ThriftVerif.Properties.C05.isForeign_iff
+#print axioms ThriftVerif.Properties.C05.all_foreign_fields_ignored
+#print axioms ThriftVerif.Properties.C05.only_known_fields_matter
 #print axioms ThriftVerif.Properties.C05.absent_field
 #print axioms ThriftVerif.Properties.C05.fails_iff
 #print axioms ThriftVerif.Properties.C05.required_missing_iff
